@@ -1,6 +1,6 @@
 SPECIFICATION Spec
 CONSTANTS
-  Part = "algebra"
+  Parts = {"algebra"}
   Seeds = {"s1"}
   Comps = {"c0", "c1"}
   HardComps = {}
